@@ -26,7 +26,7 @@ def specs(rng, tier, count):
         mode = i % 3
         spec = KC.gen_spec(rng, variant=v, geo=g, dim=dim, tier=tier, exact=(mode == 2),
                            nugget=(0.0 if mode < 2 else float(np.round(rng.uniform(0.05, 0.5), 3))),
-                           norm_prob=0.5, mean_nonzero=(v == "Simple" and i % 2 == 0), geom_mode=gm, drift_mode=(j + 3),
+                           norm_prob=0.5, mean_nonzero=(v == "Simple" and i % 2 == 0), geom_mode=gm, drift_mode=(j + 3), norm_class=KC.NORM_CLASSES[i % 6],
                            var_scale=([1e-10, 1e8, 1e-13][(i // 7) % 3] if i % 7 == 3 else None))
         if mode < 2:
             spec["cond_err"] = "nugget" if mode == 0 else 0.0
@@ -108,6 +108,15 @@ def run(ctx, only=None):
                    for v_ in ("Simple", "Ordinary") for c_ in (("Gaussian",) if ctx.tier == "quick" else ("Gaussian", "Gaussian", "Matern"))]
             for n_, v_, c_ in ill:
                 KC.probe_illcond(ctx, drv, KC.gen_illcond(rng, n_, v_, c_), stats, model_side=(n_ <= 60))
+            # the cond_err guard on every route / value class, and exactness of whatever is accepted
+            gspecs = [KC.gen_spec(rng, variant=v_, geo="plain", dim=2, tier="quick", allow_norm=False, n=6, m=3)
+                      for v_ in (("Ordinary", "Universal") if ctx.tier == "quick" else KC.VARIANTS + ["Krige"])]
+            for gs_ in gspecs:
+                KC.probe_cond_err_guard(ctx, drv, rng, gs_, stats)
+            # exact kriging at single conditioning points, rotated + anisotropic models at UTM-scale coordinates
+            for r_ in range(1 if ctx.tier == "quick" else 6):
+                for v_ in ("Simple", "Ordinary", "Universal"):
+                    KC.probe_single_targets(ctx, drv, KC.gen_utm(rng, v_), stats)
             # replicated measurements per location
             # (10 x 25 = 250 rows already separates scipy's cut-off max(M,N)*eps from a fixed 1e-15: measured deviation
             #  1e-9 of the threshold with scipy.linalg.pinv, 1e4 times the threshold with numpy.linalg.pinv)
